@@ -196,10 +196,11 @@ Piggy(s, id) == {c \in DOMAIN s.chks : LET x == s.chks[c] IN ~x.del /\ ~x.ins /\
 \* syncCheck: "Pull in the associated service if any"
 PulledSvc(s, cid) == LET x == s.chks[cid] IN IF x.svc # "" /\ Has(s.svcs, x.svc) /\ ~s.svcs[x.svc].del THEN x.svc ELSE ""
 
-\* deleteService: "service deregister also deletes associated checks" - the pending deregistrations of the checks that
-\* LOCALLY belong to the service are dropped.  Whether that was right (the catalog may hold such a check under another
-\* service, where the cascade does not reach it) is not decided here but by DeregNotForgotten at the end of the step:
-\* another call of the same pass may still remove the row.
+\* deleteService: "service deregister also deletes associated checks" - the model drops the pending deregistrations of
+\* the checks that LOCALLY belong to the service (the code did so until bccac55; since then it keeps them and the check
+\* loop of the same pass issues them - AntiEntropyTrace accepts both).  Whether dropping was right (the catalog may hold
+\* such a check under another service, where the cascade does not reach it) is not decided here but by
+\* DeregNotForgotten at the end of the step: another call of the same pass may still remove the row.
 PrunedBy(s, id) == {c \in DOMAIN s.chks : s.chks[c].del /\ s.chks[c].has /\ s.chks[c].svc = id}
 
 \* the result class the servers give when the harness does not inject a failure
